@@ -15,6 +15,7 @@
 package main
 
 import (
+	"verif/harness/internal/srcsel"
 	"bytes"
 	"flag"
 	"fmt"
@@ -77,10 +78,7 @@ func loadPkg(dir string) (*pkgInfo, error) { return loadPkgWith(dir, failImporte
 
 func loadPkgWith(dir string, imp types.Importer) (*pkgInfo, error) {
 	p := &pkgInfo{dir: dir, fset: token.NewFileSet(), src: map[string][]byte{}}
-	filter := func(fi os.FileInfo) bool {
-		n := fi.Name()
-		return !strings.HasSuffix(n, "_test.go") && n != "genalphabet.go" && n != "verif_export.go"
-	}
+	filter := srcsel.Filter(dir)
 	parsed, err := parser.ParseDir(p.fset, dir, filter, parser.SkipObjectResolution)
 	if err != nil {
 		return nil, err
